@@ -434,7 +434,7 @@ class _Side(object):
         return self.sl
 
 
-def execute(plan, tape):
+def _execute(plan, tape):
     import pysmt.environment as penv
     from pysmt.exceptions import PysmtException
     import pysmt.smtlib.commands as smtcmd
@@ -1162,3 +1162,24 @@ def _fault_fn(o, term, symbols, user, side, tape):
                 s.fault_plan["unknown_at"].discard(s.b_counts["solve"] + 1)
         return fn, None
     raise ValueError(fk)
+
+
+
+def execute(plan, tape):
+    """a well-formed construction or query of the history that raises inside the library is a
+    violation (the harness itself never expects one there), not a harness error"""
+    import sys
+    import traceback
+    try:
+        return _execute(plan, tape)
+    except Violation:
+        raise
+    except Exception as ex:
+        tb = traceback.extract_tb(sys.exc_info()[2])
+        if tb and "/pysmt/" in tb[-1].filename and "/verif/" not in tb[-1].filename:
+            caller = [fr for fr in tb if "/verif/" in fr.filename]
+            raise Violation("C15:valid-call-raised:%s" % type(ex).__name__,
+                            "a valid call of the history raised %s: %s (at %s:%s, called from %s:%d)" %
+                            (type(ex).__name__, str(ex)[:150], tb[-1].filename.split("/")[-1], tb[-1].name,
+                             caller[-1].filename.split("/")[-1] if caller else "?", caller[-1].lineno if caller else 0))
+        raise
